@@ -91,6 +91,14 @@ func (f *Frame) callExtern(v ssa.Value, fn *ssa.Function, argVals []ssa.Value, a
 		f.oblige("panic", "strings.Repeat-negative", pos, Le(Zero, args[1]))
 		f.setResults(v, mkRes())
 	case "(reflect.Value).Call":
+		if f.checks("lock") {
+			// application code (a reflected resolver method) runs with no library mutex held: a method that blocks or
+			// re-enters the library can then neither stall other requests nor deadlock
+			// (mutexes the caller already held on entry are the caller's business: the registry lock in AddEvent)
+			h := f.stGet("held", ArrSort(SInt, SBool))
+			h0 := stLookup(f.enc, f.entrySt, "held")
+			f.oblige("lock", "user-code-called-unlocked", pos, T{fmt.Sprintf("(forall ((m!h Int)) (=> (select %s m!h) (select %s m!h)))", h.S, h0.S), SBool})
+		}
 		if f.checks("panic") {
 			f.oblige("reflect", "reflect.Call-args-match", pos, f.reflectCallOK(args))
 		}
